@@ -113,8 +113,16 @@ class FakeListener:
     def close(self):
         self.closed = True
 
+    def shutdown(self, how):
+        # shutdown() acts on the open file description, which the workers and - during a binary upgrade - the other master share:
+        # recorded, and judged by the oracles of C04 / C14 (a master never has a reason to do this to a listening socket)
+        SHUTDOWNS.append((self.name, how))
+
     def __str__(self):
         return str(self.name)
+
+
+SHUTDOWNS = []
 
 
 class World:
@@ -254,6 +262,14 @@ class World:
             pid = run[lab[1] % len(run)]["pid"]
             lab = ("X", pid, lab[2]) if kind == "Xk" else ("N", pid)
             kind = lab[0]
+        if kind == "LTk":         # a SIGTERM is swallowed: the child was still running the handlers inherited from the master
+            told = [k for k in self.running(master=False) if int(_signal.SIGTERM) in k["sigs"]]
+            if told:
+                k = told[lab[1] % len(told)]
+                k["sigs"] = [x for x in k["sigs"] if x != int(_signal.SIGTERM)]
+                self.resolved.append(("LT", k["pid"]))
+                self.nlabels += 1
+            return
         if kind == "XT":          # every running child that was told to stop exits (status: the last fatal signal, or lab[1])
             for k in list(self.running()):
                 fatal = [s for s in k["sigs"] if s in (int(_signal.SIGTERM), int(_signal.SIGQUIT), int(_signal.SIGABRT), int(_signal.SIGINT))]
